@@ -23,16 +23,21 @@
 (* Every action yields the outcome `out`:                                  *)
 (*   submit : the query text handed to the executor after the extension,   *)
 (*            or None when the request was answered before that;           *)
+(*   exec   : the text whose operation was executed, None if none was;     *)
 (*   class  : "data" | "parse" | "noop" (after submission)                 *)
 (*            "notfound" | "mismatch" | "invalid" | "version" (by apq.go)  *)
 (*            "decode" (by the transport, executor never reached);         *)
 (*   ops    : the cache operations performed, in order, with their result. *)
 (*                                                                         *)
-(* Two levels: Next is the implementation-level machine (deterministic per *)
-(* request; conformance replays it into the real code and validates real   *)
-(* traces against it).  PropStep and the invariants are the property level *)
-(* (what C15 states); TLC checks that every implementation-level step      *)
-(* satisfies them.                                                         *)
+(* Two levels.  Next is the implementation-level machine (deterministic    *)
+(* per request): it generates the tours replayed into the real code and is *)
+(* compared exactly; a difference that stays inside the property is only   *)
+(* counted as implementation-level drift.  PropRules / PropRel is the      *)
+(* PROPERTY level: a permissive relation between a request, what was       *)
+(* observed and the cache before / after, which says only what C15 states. *)
+(* TLC checks ImplConforms (every step of Next satisfies PropRel); the     *)
+(* verdict on the real code is PropRel evaluated by TLC on the recorded    *)
+(* behaviour (ApqPropTrace).                                               *)
 (***************************************************************************)
 EXTENDS Integers, Sequences, FiniteSets
 
@@ -59,6 +64,7 @@ CONSTANTS
   History         \* TRUE: maintain the history variable `sent` (bigger state space)
 
 NoText == ""      \* absent or empty query string
+EmptyHash == "x:empty"  \* the hash seen when sha256Hash is absent or ""
 None   == "-"     \* nothing handed to the executor / Get missed / unused request field
 
 TextHashes == {HashOf[t] : t \in Texts}
@@ -90,7 +96,7 @@ VARIABLES
   sent,     \* history: <<hash, text>> pairs sent together in a well-formed version-1 request
   \* @type: { text: Str, ext: Str, ver: Str, hash: Str, mal: Str };
   act,      \* the last request (edge label)
-  \* @type: { submit: Str, class: Str, ops: Seq({ op: Str, h: Str, t: Str }) };
+  \* @type: { submit: Str, exec: Str, class: Str, ops: Seq({ op: Str, h: Str, t: Str }) };
   out       \* its outcome
 
 vars  == <<kind, cap, cache, order, sent, act, out>>
@@ -98,7 +104,9 @@ state == <<kind, cap, cache, order>>          \* what the real server holds
 
 Req(text, ext, ver, hash, mal) ==
   [text |-> text, ext |-> ext, ver |-> ver, hash |-> hash, mal |-> mal]
-Out(submit, class, ops) == [submit |-> submit, class |-> class, ops |-> ops]
+\* exec: the text whose operation was really executed (None unless class = "data")
+Out(submit, class, ops) ==
+  [submit |-> submit, exec |-> IF class = "data" THEN submit ELSE "-", class |-> class, ops |-> ops]
 OpGet(h, t) == [op |-> "get", h |-> h, t |-> t]
 OpAdd(h, t) == [op |-> "add", h |-> h, t |-> t]
 \* @type: Seq({ op: Str, h: Str, t: Str });
@@ -129,8 +137,14 @@ CacheAfterAdd(k, v) == [h \in DomAfterAdd(k) |-> IF h = k THEN v ELSE cache[h]]
 (* parses and validates params.Query, whatever put it there.               *)
 ExecClass(t) == IF t = NoText THEN "noop" ELSE IF t \in Valid THEN "data" ELSE "parse"
 
-Record(h, t) == sent' = (IF History THEN sent \cup {<<h, t>>} ELSE sent)
-Respond(r, submit, class, ops) == act' = r /\ out' = Out(submit, class, ops)
+\* history: every <<hash, text>> pair a client sent together in one request
+\* (whatever the version spelling, whether or not the hash matches)
+\* @type: (Set(<<Str, Str>>), { text: Str, ext: Str, ver: Str, hash: Str, mal: Str }) => Set(<<Str, Str>>);
+SentAfter(s, r) == IF r.text # NoText /\ r.hash # None THEN s \cup {<<r.hash, r.text>>} ELSE s
+Respond(r, submit, class, ops) ==
+  /\ act' = r
+  /\ out' = Out(submit, class, ops)
+  /\ sent' = (IF History THEN SentAfter(sent, r) ELSE sent)
 NoCacheOp == UNCHANGED <<cache, order>>
 Frame     == UNCHANGED <<kind, cap>>
 
@@ -143,42 +157,41 @@ Frame     == UNCHANGED <<kind, cap>>
 TextOnly(t, e) ==
   /\ e \in {"none", "null"}
   /\ Respond(Req(t, e, None, None, None), t, ExecClass(t), NoOps)
-  /\ NoCacheOp /\ UNCHANGED sent /\ Frame
+  /\ NoCacheOp /\ Frame
 
 \* The transport cannot decode the request (extensions is not an object,
 \* body is not JSON): answered by the transport, the executor is not reached.
 Undecodable(t) ==
   /\ Respond(Req(t, "undecodable", None, None, None), None, "decode", NoOps)
-  /\ NoCacheOp /\ UNCHANGED sent /\ Frame
+  /\ NoCacheOp /\ Frame
 
 \* persistedQuery is present but does not decode (wrong type, version not an
 \* integer, hash not a string): "invalid APQ extension data".
 Malformed(t, m, h) ==
   /\ Respond(Req(t, "malformed", None, h, m), None, "invalid", NoOps)
-  /\ NoCacheOp /\ UNCHANGED sent /\ Frame
+  /\ NoCacheOp /\ Frame
 
 \* version # 1: "unsupported APQ version", before any look at hash or cache.
 WrongVersion(t, v, h) ==
   /\ Respond(Req(t, "pq", v, h, None), None, "version", NoOps)
-  /\ NoCacheOp /\ UNCHANGED sent /\ Frame
+  /\ NoCacheOp /\ Frame
 
 \* Well-formed version 1, empty query: look the hash up.
 HashOnlyHit(h) ==
   /\ Hit(h)
   /\ Respond(Req(NoText, "pq", "1", h, None), cache[h], ExecClass(cache[h]), <<OpGet(h, cache[h])>>)
   /\ order' = OrderAfterGet(h)
-  /\ UNCHANGED <<cache, sent>> /\ Frame
+  /\ UNCHANGED cache /\ Frame
 
 HashOnlyMiss(h) ==
   /\ ~Hit(h)
   /\ Respond(Req(NoText, "pq", "1", h, None), None, "notfound", <<OpGet(h, None)>>)
-  /\ NoCacheOp /\ UNCHANGED sent /\ Frame
+  /\ NoCacheOp /\ Frame
 
 \* Well-formed version 1 with query text: compare first ...
 TextHashMismatch(t, h) ==
   /\ HashOf[t] # h
   /\ Respond(Req(t, "pq", "1", h, None), None, "mismatch", NoOps)
-  /\ Record(h, t)
   /\ NoCacheOp /\ Frame
 
 \* ... then store (also when the text will turn out not to parse: the store
@@ -187,7 +200,6 @@ TextHashOK(t) ==
   /\ Respond(Req(t, "pq", "1", HashOf[t], None), t, ExecClass(t), <<OpAdd(HashOf[t], t)>>)
   /\ cache' = CacheAfterAdd(HashOf[t], t)
   /\ order' = OrderAfterAdd(HashOf[t])
-  /\ Record(HashOf[t], t)
   /\ Frame
 
 MalHashes(m) == IF m \in MalWithHash THEN Hashes ELSE {None}
@@ -259,51 +271,86 @@ TypeOK ==
 
 \* @type: ({ text: Str, ext: Str, ver: Str, hash: Str, mal: Str }) => Bool;
 WellFormedV1(r) == r.ext = "pq" /\ r.ver = "1"
-\* the only request form that may register: version 1, text present, hash = H(text)
-\* @type: ({ text: Str, ext: Str, ver: Str, hash: Str, mal: Str }) => Bool;
-Registers(r) == WellFormedV1(r) /\ r.text # NoText /\ r.hash = HashOf[r.text]
 
-\* (1) a hash-only request executes exactly cache[h], or is answered PersistedQueryNotFound
-PHashOnly ==
-  (WellFormedV1(act') /\ act'.text = NoText) =>
-     \/ (act'.hash \in DOMAIN cache /\ out'.submit = cache[act'.hash])
-     \/ (out'.submit = None /\ out'.class = "notfound")
+(* The property-level relation.  Arguments: cache c and history s before   *)
+(* the request, the request r, the observed outcome o, whether the request *)
+(* changed the cache contents, cache c2 and history s2 after it.  It is    *)
+(* deliberately silent about: recency / eviction policy and capacity,      *)
+(* which cache operations are performed, whether a correct request is      *)
+(* served or registered at all (and when), the error class or wording of   *)
+(* a rejection, which version spellings are accepted, how an absent        *)
+(* sha256Hash is treated.                                                  *)
+HashOK(h, t) == t \in Texts /\ HashOf[t] = h
+\* @type: (Set(<<Str, Str>>), Str, Str) => Bool;
+SentOK(s, h, t) == HashOK(h, t) /\ (History => <<h, t>> \in s)
+Rejecting == {"mismatch", "invalid", "version", "decode", "notfound", "apqreject"}
 
-\* ... and that text was previously sent together with that same hash, and hashes to it
-PHistory ==
-  (WellFormedV1(act') /\ act'.text = NoText /\ out'.submit # None) =>
-     /\ (History => <<act'.hash, out'.submit>> \in sent)
-     /\ HashOf[out'.submit] = act'.hash
+\* (1) Bound: every entry binds a hash to a text that hashes to it
+\* @type: (Str -> Str) => Bool;
+RBound(c2) == \A h \in DOMAIN c2 : HashOK(h, c2[h])
 
-\* (2) a request whose text does not match its hash is rejected, executes
-\* nothing and leaves the cache (contents and recency) unchanged
-PMismatch ==
-  (WellFormedV1(act') /\ act'.text # NoText /\ act'.hash # HashOf[act'.text]) =>
-     /\ out'.submit = None
-     /\ out'.class \notin {"data", "parse", "noop"}
-     /\ cache' = cache /\ order' = order
+\* (2) a hash-only request executes a text previously sent together with
+\* that same hash (and hashing to it), or is answered PersistedQueryNotFound
+\* @type: (Set(<<Str, Str>>), { text: Str, ext: Str, ver: Str, hash: Str, mal: Str }, { submit: Str, exec: Str, class: Str, ops: Seq({ op: Str, h: Str, t: Str }) }) => Bool;
+RHashOnly(s, r, o) ==
+  (WellFormedV1(r) /\ r.text = NoText /\ r.hash # EmptyHash) =>
+     \/ (o.submit # None /\ SentOK(s, r.hash, o.submit))
+     \/ (o.submit = None /\ o.exec = None /\ o.class = "notfound")
 
-\* (3) nothing else is ever registered; a bound hash never changes its text
-POnlyRegister ==
-  \A h \in DOMAIN cache' :
-     \/ (h \in DOMAIN cache /\ cache'[h] = cache[h])
-     \/ (h \notin DOMAIN cache /\ Registers(act') /\ h = act'.hash /\ cache'[h] = act'.text)
+\* whatever reaches the executor is the text this request carried, or a text
+\* previously sent with the hash it carried, or the empty query of a request
+\* that is not a well-formed hash-only request
+\* @type: (Set(<<Str, Str>>), { text: Str, ext: Str, ver: Str, hash: Str, mal: Str }, { submit: Str, exec: Str, class: Str, ops: Seq({ op: Str, h: Str, t: Str }) }) => Bool;
+RSubmit(s, r, o) ==
+  o.submit # None =>
+     \/ (r.text # NoText /\ o.submit = r.text)
+     \/ (r.text = NoText /\ r.hash # None /\ SentOK(s, r.hash, o.submit))
+     \/ (r.text = NoText /\ o.submit = NoText /\ ~(WellFormedV1(r) /\ r.hash # EmptyHash))
 
-\* (4) whatever is executed is the text this request carried, or the text cached for its hash
-PSubmit ==
-  out'.submit # None =>
-     \/ (act'.text # NoText /\ out'.submit = act'.text)
-     \/ (act'.text = NoText /\ act'.ext \in {"none", "null"} /\ out'.submit = NoText)
-     \/ (act'.text = NoText /\ WellFormedV1(act') /\ act'.hash \in DOMAIN cache
-           /\ out'.submit = cache[act'.hash])
+\* what is executed is what was handed to the executor
+\* @type: ({ submit: Str, exec: Str, class: Str, ops: Seq({ op: Str, h: Str, t: Str }) }) => Bool;
+RExec(o) == o.exec # None => o.exec = o.submit
 
-\* (5) the cache is read only by hash-only requests
-PLookupOnlyWhenEmpty ==
-  (\E i \in 1..Len(out'.ops) : out'.ops[i].op = "get") => (WellFormedV1(act') /\ act'.text = NoText)
+\* (3) a request whose text does not match its hash is rejected, executes
+\* nothing and does not change the cache contents
+\* @type: ({ text: Str, ext: Str, ver: Str, hash: Str, mal: Str }, { submit: Str, exec: Str, class: Str, ops: Seq({ op: Str, h: Str, t: Str }) }, Bool) => Bool;
+RMismatch(r, o, changed) ==
+  (r.ext = "pq" /\ r.text # NoText /\ r.hash # EmptyHash /\ ~HashOK(r.hash, r.text)) =>
+     /\ o.submit = None /\ o.exec = None
+     /\ o.class \in Rejecting
+     /\ ~changed
 
-PropStep == PHashOnly /\ PHistory /\ PMismatch /\ POnlyRegister /\ PSubmit /\ PLookupOnlyWhenEmpty
+\* (4) no registration that no request asked for: every entry's pair was sent
+\* together by some request (with (1): by a text + correct hash request)
+\* @type: (Str -> Str, { text: Str, ext: Str, ver: Str, hash: Str, mal: Str }, Str -> Str, Set(<<Str, Str>>)) => Bool;
+RRegister(c, r, c2, s2) ==
+  \A h \in DOMAIN c2 :
+     IF History THEN <<h, c2[h]>> \in s2
+     ELSE (h \in DOMAIN c /\ c2[h] = c[h]) \/ (h = r.hash /\ c2[h] = r.text)
 
-StepOK == [][PropStep]_vars
+PropRules(c, s, r, o, changed, c2, s2) ==
+  [bound    |-> RBound(c2),
+   hashonly |-> RHashOnly(s, r, o),
+   submit   |-> RSubmit(s, r, o),
+   exec     |-> RExec(o),
+   mismatch |-> RMismatch(r, o, changed),
+   register |-> RRegister(c, r, c2, s2)]
+
+PropRel(c, s, r, o, changed, c2, s2) ==
+  /\ RBound(c2) /\ RHashOnly(s, r, o) /\ RSubmit(s, r, o) /\ RExec(o)
+  /\ RMismatch(r, o, changed) /\ RRegister(c, r, c2, s2)
+
+\* the implementation-level machine stays inside the property
+PropStep == PropRel(cache, sent, act', out', cache' # cache, cache', sent')
+ImplConforms == [][PropStep]_vars
+StepOK == ImplConforms
+
+\* implementation level only (not part of the verdict): the cache is read
+\* only by hash-only requests, a mismatch does not even refresh recency
+ImplExtra ==
+  /\ (\E i \in DOMAIN out'.ops : out'.ops[i].op = "get") => (WellFormedV1(act') /\ act'.text = NoText)
+  /\ (out'.class = "mismatch" => order' = order)
+ImplExtraOK == [][ImplExtra]_vars
 
 ----------------------------------------------------------------------------
 (* Inductive invariant (Apalache: --init=IndInit --inv=IndInv --length=1)  *)
